@@ -210,7 +210,23 @@ func (g *pg) simple() string {
 			case 4:
 				return fmt.Sprintf("add_key(%s)", g.pick(g.vars))
 			default:
-				return fmt.Sprintf("set_measurement(%s)", g.pick([]string{`"mm"`, k, "s", "n"}))
+				if g.rng.Intn(2) == 0 {
+					return fmt.Sprintf("set_measurement(%s)", g.pick([]string{`"mm"`, k, "s", "n"}))
+				}
+				// the other builtins, with argument shapes their checkers accept
+				return g.pick([]string{
+					fmt.Sprintf("default_time(%s, %s)", g.pick([]string{"ts", k, "message"}), g.pick([]string{`"Asia/Shanghai"`, `"+8"`, `"Mars/Olympus_Mons"`, `"CST"`, `"-3:30"`, `""`})),
+					fmt.Sprintf("default_time(%s)", g.pick([]string{"ts", k})),
+					fmt.Sprintf("datetime(%s, %s, %s)", g.pick([]string{"n", k, "ts"}), g.pick([]string{`"s"`, `"ms"`, `"us"`}), g.pick([]string{`"RFC3339"`, `"ANSIC"`, `"nosuch"`})),
+					fmt.Sprintf("cast(%s, %s)", k, g.pick([]string{`"int"`, `"float"`, `"bool"`, `"str"`, `"string"`})),
+					fmt.Sprintf("url_decode(%s)", k), fmt.Sprintf("uppercase(%s)", k), fmt.Sprintf("trim(%s, %s)", k, g.pick([]string{`" "`, `""`, `"a"`})),
+					fmt.Sprintf("replace(%s, %s, \"X\")", k, g.pick([]string{`"[a-c]+"`, `"("`, `"l+"`})),
+					fmt.Sprintf("strfmt(out, \"%%v-%%d\", %s, %s)", g.expr(1), g.expr(1)),
+					fmt.Sprintf("x = load_json(%s)", g.pick([]string{"message", k, "s"})),
+					fmt.Sprintf("sql_cover(%s)", g.pick([]string{"message", k})),
+					fmt.Sprintf("xml(%s, \"/a/b\", out)", g.pick([]string{"message", k})),
+					fmt.Sprintf("grok(%s, \"%%{WORD:w} %%{NUMBER:gn:int}\")", g.pick([]string{"_", k, "message"})),
+				})
 			}
 		}
 		return g.probe()
@@ -384,6 +400,9 @@ func stdPoint(rng *rand.Rand) pointSpec {
 	}
 	if rng.Intn(3) != 0 {
 		pt.Tags = append(pt.Tags, [2]string{"t1", []string{"tv", "", "7"}[rng.Intn(3)]})
+	}
+	if rng.Intn(4) == 0 {
+		pt.Fields = append(pt.Fields, fieldSpec{"ts", "str", []string{"171113 14:14:20", "2021/02/27 - 14:14:20", "2021-03-15T00:08:10Z", "junk", "1610358231887"}[rng.Intn(5)]})
 	}
 	return pt
 }
